@@ -89,6 +89,12 @@ def check_pos(case):
         if not isinstance(alt, list) or [x.hash for x in alt] != [r.repr_hash() for r in roots] or \
                 any(rc.structurally_equal_lib(r, l) for r, l in zip(roots, alt)):
             return Fail(f'roots/differ/{fname}', f'{alt!r}'[:200] + f'; enc={e} boc={data.hex()[:300]}')
+    # ... and on a host of the other byte order (the format is defined byte by byte)
+    from harness.core import fake_byteorder
+    with fake_byteorder():
+        ok, alt = call(Cell.from_boc, data)
+    if not ok or [x.hash for x in alt] != [r.repr_hash() for r in roots]:
+        return Fail('valid-encoding-rejected-or-misread/host-of-the-other-byte-order', f'{alt!r}'[:200] + f'; enc={e} boc={data.hex()[:300]}')
     # the caller does what it likes with the list it was given; the same bytes parsed again denote the same roots
     got.append(got[0])
     got[0] = got[-1].copy() if len(got[0].refs) else Cell.empty()
